@@ -103,7 +103,9 @@ fn gen_index(r: &mut Rng, m: &str, want_valid: bool, allow_end: bool) -> usize {
 }
 
 fn gen_items(r: &mut Rng, max_items: usize, inline_room: Option<usize>) -> Vec<String> {
-    let n = r.below(max_items + 1);
+    // occasionally many items (iterator-driven ops that batch, chunk or pre-size)
+    let big_ok = MAX_TEXT_LEN.load(std::sync::atomic::Ordering::Relaxed) >= 1000;
+    let n = if big_ok && inline_room.is_none() && r.chance(1, 25) { r.range(30, 150) } else { r.below(max_items + 1) };
     let mut room = inline_room.unwrap_or(usize::MAX);
     let mut v = Vec::new();
     for _ in 0..n {
